@@ -130,7 +130,14 @@ def run_case(case):
                 else:
                     weights[e] = wnum[e] / den
     obs = []
-    for q in case["queries"]:
+    queries = case.get("queries")
+    if not queries and "qseed" in case and n > 0 and edges:
+        # queries are drawn here, once the shape of the mesh is known, by the check's own generator (deterministic in qseed)
+        import random
+        from vf.props.C09 import gen_queries
+        queries = gen_queries(random.Random(case["qseed"]), {"n": n, "edges": edges, "border": border}, case["k"])
+    queries = queries or []
+    for q in queries:
         try:
             signal.alarm(QUERY_TIMEOUT)       # a non-terminating back-tracking loop is an observation, not a hang
             exp = bool(q.get("export"))
@@ -178,7 +185,7 @@ def run_case(case):
         finally:
             signal.alarm(0)
     return {"type": type(mesh).__name__, "n": n, "edges": edges, "adj": adj, "border": border, "coords": coords,
-            "wnum": wnum, "obs": obs}
+            "wnum": wnum, "obs": obs, "queries": queries}
 
 
 def main():
